@@ -234,6 +234,9 @@ impl Engine for WrapSim {
         let mut k = WorldKnobs::new(InspKind::None);
         k.max_contracts = 4;
         k.snippets = (1, 6);
+        // create / change / destroy / re-create histories of one address in half of the worlds
+        // (a destroyed and re-created account is where "storage fully known" matters)
+        k.lifecycle_pct = *rng.pick(&[0u64, 0, 40, 70]);
         let world = gen_world(rng, &k);
         let stack = *rng.pick(WSTACKS);
         let n = rng.range(4, 40);
@@ -242,7 +245,11 @@ impl Engine for WrapSim {
         let mut block = world.block.number;
         // accounts that exist on the disk but hold nothing (empty, or storage only): where
         // "exists" and "does not exist" are easy to confuse
-        let special: Vec<Address> = world.disk.accounts.iter().filter(|(_, d)| d.is_empty()).map(|(a, _)| *a).collect();
+        let mut special: Vec<Address> = world.disk.accounts.iter().filter(|(_, d)| d.is_empty()).map(|(a, _)| *a).collect();
+        if let Some((_, child)) = world.lifecycle {
+            special.push(child);
+            special.push(child);
+        }
         for _ in 0..n {
             let a = if !special.is_empty() && rng.chance(1, 4) { *rng.pick(&special) } else { *rng.pick(&world.universe) };
             let op = match rng.below(18) {
